@@ -3,7 +3,7 @@
 Correspondence: `symmray.linalg.svd` is replaced (module attribute) by a stub
 returning factors with chosen exact singular values, the real `svd_truncated`
 is run, and the bond chargemap it produces is compared with Model/Trunc.v
-(`trunc_impl`) through cases.v.  `calc_sub_max_bonds` is compared directly.
+(`trunc`, the model of the current code the C13 theorems are about) through cases.v.  `calc_sub_max_bonds` is compared directly.
 
 Oracle (independent of symmray/linalg.py): exact rational re-statement of the
 property (kept = largest lower-closed set allowed by the rule, intersected with
@@ -240,14 +240,6 @@ def above_total(mode, cut, vals):
     return (cut * tot if mode in (4, 6) else cut) > tot
 
 
-def known_f7(kf):
-    for f in kf.get('findings', []):
-        txt = json.dumps(f)
-        if 'C13' in txt and (F7_SIG in txt or 'F7' in txt):
-            return True
-    return False
-
-
 # ---------------------------------------------------------------- observation of a result
 def observe(case, table, res):
     """(U, s, VH) of absorb=None -> dict of plain observations, or a string naming a structural defect"""
@@ -440,7 +432,6 @@ def run(ctx):
     import symmray as sr
     rng = ctx.rng
     ok = common.standard_proof_phase(ctx)
-    kf = common.load_known_findings()
     st = {'tie_excess': 0, 'absorb_runs': 0, 'f7': 0, 'float_gap': 0, 'raises': 0}
     ncases = 260 if ctx.thorough else 70
     ncut = 9 if ctx.thorough else 6
@@ -450,7 +441,7 @@ def run(ctx):
     f7_found = []
     dist = {'symmetry': {}, 'fermionic': {}, 'mode': {}, 'sectors_removed': 0, 'real_truncation': 0}
 
-    # pinned inputs first (section 8 of DESIGN: F7, F8) then the random stream
+    # pinned inputs first (section 8 of DESIGN: F7 (fixed), F8) then the random stream
     pinned = [
         {'symmetry': 'Z2', 'fermionic': False, 'duals': [False, True], 'charge': 0, 'ch0': [(0, 2), (1, 2)], 'ch1': [(0, 2), (1, 2)],
          'sectors': [{'c0': 0, 'c1': 0, 'u': [[1, 0], [0, 1]], 's': [3, 1], 'v': [[1, 0], [0, 1]]},
@@ -494,15 +485,15 @@ def run(ctx):
             else:
                 impl = 'None'
                 st['raises'] += 1
-            exprs.append('ocm_eqb (trunc_impl %s %s %s %s %s) %s' % (
+            exprs.append('ocm_eqb (trunc %s %s %s %s %s) %s' % (
                 gz(mode), gz(cut.numerator), gz(cut.denominator), gz(mb), g_secs(case), impl))
             meta.append((ci, mode, cut, mb))
             if cut > 0:
-                # the oracle's re-statement of the rule must be the Coq `trunc_spec` the theorems are about
+                # the oracle's independent re-statement of the rule must agree with the Coq `trunc` the theorems are about
                 want, _ = spec_counts(case, mode, cut, mb)
                 code = code_of(case)
                 wcm = sorted(((c1, n) for (c0, c1), n in want.items() if n), key=lambda cn: code[cn[0]])
-                exprs_spec.append('ocm_eqb (trunc_spec %s %s %s %s %s) %s' % (
+                exprs_spec.append('ocm_eqb (trunc %s %s %s %s %s) %s' % (
                     gz(mode), gz(cut.numerator), gz(cut.denominator), gz(mb), g_secs(case), gopt(g_cm(case, wcm))))
             for kind, detail in fails:
                 rp = replay_dict(case, mode, cut, mb, kind, detail, ABSORBS if k in absorb_at else None)
@@ -539,26 +530,26 @@ def run(ctx):
         impl = 'None' if res is None else gopt(g_cm(empty, list(res[0].indices[1].chargemap.items())))
         if res is None:
             empty_obs.append({'cutoff': float(cut), 'cutoff_mode': mode, 'max_bond': mb, 'raises': err})
-        exprs.append('ocm_eqb (trunc_impl %s %s %s %s %s) %s' % (gz(mode), gz(cut.numerator), gz(cut.denominator), gz(mb), '[]', impl))
+        exprs.append('ocm_eqb (trunc %s %s %s %s %s) %s' % (gz(mode), gz(cut.numerator), gz(cut.denominator), gz(mb), '[]', impl))
         meta.append(('empty', mode, cut, mb))
 
     bad = common.run_cases(ctx, 'trunc', IMPORTS, '', exprs)
     tie_broken = []
     if bad is None:
-        tie_broken.append('cases.v (Model.trunc_impl vs svd_truncated) did not evaluate')
+        tie_broken.append('cases.v (Model.trunc vs svd_truncated) did not evaluate')
     elif bad:
-        tie_broken += ['Model.trunc_impl disagrees with svd_truncated on case %r' % (meta[i],) for i in bad[:8]]
+        tie_broken += ['Model.trunc disagrees with svd_truncated on case %r' % (meta[i],) for i in bad[:8]]
         for i in bad[:3]:
             ci, mode, cut, mb = meta[i]
             if ci != 'empty' and not found:
                 found.append(('model_disagreement', replay_dict(cases[ci], mode, cut, mb, 'model_disagreement',
-                                                                'svd_truncated bond table differs from Model.trunc_impl')))
+                                                                'svd_truncated bond table differs from Model.trunc')))
 
     bad_s = common.run_cases(ctx, 'spec', IMPORTS, '', exprs_spec)
     if bad_s is None:
-        tie_broken.append('cases.v (oracle rule vs Model.trunc_spec) did not evaluate')
+        tie_broken.append('cases.v (oracle rule vs Model.trunc) did not evaluate')
     elif bad_s:
-        tie_broken.append('the oracle re-statement of the rule disagrees with Model.trunc_spec on %d cases (harness defect)' % len(bad_s))
+        tie_broken.append('the oracle re-statement of the rule disagrees with Model.trunc on %d cases (harness defect)' % len(bad_s))
 
     # ---- calc_sub_max_bonds directly
     exprs2, meta2 = [], []
@@ -625,11 +616,9 @@ def run(ctx):
         rp = min(f7_found, key=lambda r: (r['case'] is not cases[0], r['max_bond'] != -1, 'smaller_cutoff' not in r, len(json.dumps(r, default=str)),
                                           json.dumps(r, default=str, sort_keys=True)))
         rp = dict(rp, signature=F7_SIG)
-        if known_f7(kf):
-            ctx.known.append('KNOWN-FINDING: property=C13 %s (%d occurrences this run; e.g. cutoff_mode=%d cutoff=%s max_bond=%d)' % (
-                F7_SIG, st['f7'], rp['cutoff_mode'], rp['cutoff_float'], rp['max_bond']))
-        else:
-            ctx.violation('cumulative cutoff above the total weight keeps everything (sall[-0] is sall[0]); modes 1/2 keep nothing: %s' % rp['detail'], rp)
+        # fixed in /repo by d8706ac (guard `n_chi_all == 0`): reported again if the guard is lost
+        ctx.violation('regression of the fixed defect F7: a cumulative cutoff above the total weight keeps values '
+                      '(modes 1/2 keep nothing there): %s' % rp['detail'], rp)
     ctx.broken += tie_broken
     if (not ok or tie_broken) and not found:
         ctx.violation('proof obligation or tie of C13 no longer checks', {'broken': ctx.broken}, found_input=False)
@@ -640,16 +629,16 @@ def run(ctx):
         'branch for every max_bond; absorb options on sampled configurations; calc_sub_max_bonds on random size tuples. '
         'non-trivial = at least two sectors, something kept and something discarded; distinct by (matrix, mode, cutoff, max_bond)')
     ctx.extra['tie'] = {'svd_truncated_cases': len(exprs), 'calc_sub_max_bonds_cases': len(exprs2),
-                        'oracle_rule_vs_trunc_spec_cases': len(exprs_spec)}
+                        'oracle_rule_vs_trunc_cases': len(exprs_spec)}
     ctx.extra['distribution'] = dist
     ctx.extra['oracle_failures_by_kind'] = seen_kinds
     ctx.extra['observations'] = {
-        'F7_occurrences': st['f7'],
-        'tie_at_bond_limit_exceeds_max_bond (candidate F8, characterised by C13_bond_limit)': st['tie_excess'],
+        'F7_regression_occurrences (fixed defect: cumulative cutoff above the total weight kept everything)': st['f7'],
+        'tie_at_bond_limit_exceeds_max_bond (observation F8, characterised exactly by C13_bond_limit)': st['tie_excess'],
         'tie_example': st.get('tie_example'),
         'calc_sub_max_bonds_float_floor_differs_from_exact_floor': st['float_gap'],
         'float_gap_example': st.get('float_gap_example'),
-        'no_stored_block_raises (candidate)': empty_obs,
+        'no_stored_block_raises (not a violation: there is no matrix to truncate; model = None)': empty_obs,
         'absorb_runs': st['absorb_runs'],
         'configurations_that_raise': st['raises'],
     }
@@ -704,7 +693,7 @@ def real_eval(sr, info):
     if 0 < mb < rank:
         t = max(t, allv[rank - mb])
     want = int(np.sum(allv >= t))
-    if want != len(kv) and not (t == math.inf and len(kv) > 0):     # the F7 situation is reported by the exact stream
+    if want != len(kv):
         out.append(('real_rule', '%d kept, the rule prescribes %d' % (len(kv), want)))
     Us = U.copy()
     for (c0, c1) in Us.blocks:
@@ -736,7 +725,7 @@ def real_stream(ctx, sr, n, st):
             pw = 2 if mode in (3, 4) else 1
             tot = float(np.sum(allv ** pw))
             base = {1: float(allv[rank // 2]), 2: 0.5, 3: tot / 3, 4: 1 / 3, 5: tot / 3, 6: 1 / 3}[mode]
-            for f in (0.3, 1.0, 1.7):
+            for f in (0.3, 1.0, 1.7, 3.6):      # 3.6: beyond the total weight / the largest value
                 cut = base * f * (0.9 + 0.2 * rng.random())
                 mb = rng.choice([-1, rng.randint(1, rank + 1)])
                 ctx.count()
